@@ -32,6 +32,12 @@ fn main() {
         "C02" => props::c02::run(tier, seed),
         "C03" => props::c03::run(tier, seed),
         "C04" => props::c04::run(tier, seed),
+        "C05" => props::c05::run(tier, seed),
+        "C06" => props::c06::run(tier, seed),
+        "C07" => props::c07::run(tier, seed),
+        "C08" => props::c08::run(tier, seed),
+        "C09" => props::c09::run(tier, seed),
+        "C10" => props::c10::run(tier, seed),
         "C20" => props::c20::run(tier, seed),
         "replay" => {
             let path = args.get(2).unwrap_or_else(|| usage());
@@ -42,6 +48,12 @@ fn main() {
                 "C02" => props::c02::replay,
                 "C03" => props::c03::replay,
                 "C04" => props::c04::replay,
+                "C05" => props::c05::replay,
+                "C06" => props::c06::replay,
+                "C07" => props::c07::replay,
+                "C08" => props::c08::replay,
+                "C09" => props::c09::replay,
+                "C10" => props::c10::replay,
                 "C20" => props::c20::replay,
                 p => {
                     eprintln!("no replay for {p}");
